@@ -7,7 +7,7 @@ from . import executor as E, runtask as R
 META = {
     "explanation": "Guard normal form of the launch condition (EX11), queue routing agreement (EX12), single writer of the "
                    "parallel-mode flag (EX13), slot acquire/release typestate (EX14), pool initialisation (EX15), COND_SLOT "
-                   "agreement (RT8) and the --jobs validation (J1).",
+                   "agreement on a per-task fresh environment dict (RT8) and the --jobs validation (J1).",
     "rules": ["EX11", "EX12", "EX13", "EX14", "EX15", "RT8", "J1"],
     "assumptions": ["the invariant 'in-flight ops are all parallelizable or there is exactly one' is argued by hand from the guard shape (DESIGN §4.C04)"],
     "trusted": ["ast parser", "own call resolver"],
@@ -30,6 +30,13 @@ def rule_rt8(A, rep):
         ok = gs == [frozenset({("none(%s)" % slot, False)})] and norm(s.value) == "str(%s)" % slot and env is not None and norm(env) == norm(s.targets[0].value)
         det = "guard [%s], value `%s`, dict `%s` vs env=`%s`" % (" | ".join(" & ".join(("" if p else "!") + a for a, p in c) for c in gs), norm(s.value),
                                                                  norm(s.targets[0].value), norm(env) if env is not None else "?")
+    # the dict that receives COND_SLOT is created by this call: a dict shared between tasks would keep a stale COND_SLOT
+    if spawns:
+        env = A.kw(spawns[0], "env")
+        d = A.expand(env, fi) if env is not None else None
+        fresh = isinstance(d, ast.Dict) or (isinstance(d, ast.Call) and norm(d.func) in ("dict", "os.environ.copy"))
+        rep.check(fresh, "RT8", "environment dict is fresh per task", spawns[0], "env= is a dict built inside start_execution",
+                  "env=`%s` is not a dict created in start_execution: a COND_SLOT written for one task would still be there for the next (sequential) one" % (norm(env) if env is not None else "?"))
     rep.check(ok, "RT8", "COND_SLOT iff slot is not None", fi.node, "COND_SLOT = str(slot) exactly when a slot was assigned", det)
     v = A.prog.fold_fq("conductor.config.SLOT_ENV_VARIABLE_NAME")
     rep.check(v == "COND_SLOT", "RT8", "variable name", None, "", "SLOT_ENV_VARIABLE_NAME folds to %r" % (v,), deep=False)
